@@ -23,6 +23,8 @@ func main() {
 		cmdHistory(os.Args[2:])
 	case "timing":
 		cmdTiming(os.Args[2:])
+	case "mine":
+		cmdMine(os.Args[2:])
 	case "c03fps":
 		cmdC03Fps(os.Args[2:])
 	case "tablecheck":
